@@ -163,6 +163,18 @@ def shrink_pipe(case: dict, still_fails) -> dict:
         return c
 
     cur["arrivals"] = ddmin(cur["arrivals"], lambda a: still_fails(with_arr(a)), max_tests=120)
+    if cur.get("cancels"):
+        for i in range(len(cur["cancels"]) - 1, -1, -1):
+            trial = copy.deepcopy(cur)
+            del trial["cancels"][i]
+            if still_fails(trial):
+                cur = trial
+        for i in range(len(cur["cancels"])):
+            if len(cur["cancels"][i]) > 2 and cur["cancels"][i][2]:
+                trial = copy.deepcopy(cur)
+                trial["cancels"][i][2] = 0
+                if still_fails(trial):
+                    cur = trial
     # simplify what is left, one knob at a time
     for i in range(len(cur["arrivals"])):
         for key, val in (("hops", 0), ("via", "pre"), ("patience", None), ("weight", 1), ("prio", 0), ("flow", "f0")):
